@@ -36,8 +36,8 @@ ASSUMPTIONS = [
     'grids whose levels are closer than 1e-9 decades are counted, not judged',
     'temperature and molecular weight per layer are inputs here (decided by C12 / C10)',
 ]
-_Q = {'grid': 200, 'scale': 200, 'model': 75, 'align': 45}
-_T = {'grid': 2500, 'scale': 2500, 'model': 800, 'align': 450}
+_Q = {'grid': 200, 'scale': 200, 'model': 75, 'align': 45, 'shared': 20}
+_T = {'grid': 2500, 'scale': 2500, 'model': 800, 'align': 450, 'shared': 200}
 BUDGET = {
     'quick': [dict(name='main', env={}, shards=8, cases=_Q)],
     'thorough': [dict(name='main', env={}, shards=16, cases=_T)],
@@ -57,7 +57,8 @@ REQUIRED = dict(
     classes=['pressure:simple', 'pressure:array', 'pressure:file', 'nlayers:1', 'nlayers:2', 'nlayers:100', 'T:layers',
              'T:isothermal', 'T:npoint', 'T:guillot', 'units:km', 'scale:irregular-levels', 'stored:hdf5', 'stored:recorded',
              'perturb:temperature', 'perturb:abundance', 'perturb:pressure', 'perturb:top-layer', 'perturb:bottom-layer',
-             'via-setter', 'pressure:array-with-unordered-derived-levels'])
+             'via-setter', 'pressure:array-with-unordered-derived-levels', 'T-dtype:i', 'T-dtype:f',
+             'T:integer-valued-layers', 'shared-planet:earlier-model-rejudged'])
 
 AMU = L.R.AMU
 
@@ -122,6 +123,9 @@ def gen_spec(rng, pkinds=('simple', 'simple', 'array', 'file'), tkinds=('layers'
     spec['tkind'] = tk
     if tk == 'layers':
         spec['T'] = smooth_T(rng, n)
+        if rng.random() < 0.25:          # whole-number temperatures handed over as integers (a table typed by hand)
+            spec['T'] = [int(round(v)) for v in spec['T']]
+            spec['T_integer'] = True
     elif tk == 'isothermal':
         spec['T'] = float(rng.uniform(100, 3000))
     elif tk == 'npoint':
@@ -143,7 +147,7 @@ def gen_spec(rng, pkinds=('simple', 'simple', 'array', 'file'), tkinds=('layers'
     return spec
 
 
-def build(ctx, spec):
+def build(ctx, spec, planet=None):
     from taurex.cache import OpacityCache
     from taurex.data import Planet
     from taurex.data.stellar import BlackbodyStar
@@ -159,7 +163,7 @@ def build(ctx, spec):
         OpacityCache().add_opacity(Fake(m, np.array([100.0, 200.0, 400.0]), np.array([50.0, 4000.0]), np.array([1e-3, 1e9]),
                                         np.full((2, 2, 3), 1e-25)))
     n = spec['n']
-    planet = Planet(planet_mass=spec['planet'][0], planet_radius=spec['planet'][1])
+    planet = planet or Planet(planet_mass=spec['planet'][0], planet_radius=spec['planet'][1])
     if spec['pkind'] == 'simple':
         pressure = SimplePressureProfile(nlayers=n, atm_min_pressure=spec['pmin'], atm_max_pressure=spec['pmax'])
     else:
@@ -182,7 +186,7 @@ def build(ctx, spec):
                                            reverse=spec['reverse'])
     tk = spec['tkind']
     if tk == 'layers':
-        temperature = TemperatureArray(tp_array=np.array(spec['T']))
+        temperature = TemperatureArray(tp_array=np.array(spec['T']) if spec['n'] % 2 else list(spec['T']))
     elif tk == 'isothermal':
         temperature = Isothermal(T=spec['T'])
     elif tk == 'npoint':
@@ -352,6 +356,8 @@ def wl_scale(ctx, rng):
                     cuts[i] = cuts[i - 1] + 1e-6
             lev = 10 ** (lpmax - dec * np.concatenate([[0.0], cuts, [1.0 + 1e-6 * n]]))
         T = np.array(smooth_T(rng, n))
+        if rng.random() < 0.2:
+            T = np.round(T).astype(int)      # integer dtype: every returned array must still be real-valued
         mu = rng.uniform(2.0, 44.0, n) * AMU if rng.random() < 0.7 else np.full(n, rng.uniform(2.0, 44.0) * AMU)
         planet = Planet(planet_mass=pm, planet_radius=pr)
         if L.hydro_domain(T, lev, mu) is None and L.reference(T, lev, mu, planet)[4]:
@@ -360,7 +366,8 @@ def wl_scale(ctx, rng):
     else:
         raise RuntimeError('generator could not draw a bound atmosphere')
     units = 'km' if rng.random() < 0.25 else 'm'
-    ctx.observe('nlayers:%d' % n, 'scale:%s-levels' % ('irregular' if kind == 'irregular' else 'log'), 'units:' + units)
+    ctx.observe('nlayers:%d' % n, 'scale:%s-levels' % ('irregular' if kind == 'irregular' else 'log'), 'units:' + units,
+                'T-dtype:' + T.dtype.kind)
     ctx.feature(kind='scale', nlayers=n, planet=(pm, pr), levels=kind, units=units)
     before = ctx.monitors['contract:scale.altitude']
     if units == 'm' and rng.random() < 0.5:
@@ -382,6 +389,8 @@ def wl_scale(ctx, rng):
 
 
 def observe_spec(ctx, spec):
+    if spec.get('T_integer'):
+        ctx.observe('T:integer-valued-layers')
     ctx.observe('pressure:' + spec['pkind'], 'nlayers:%d' % spec['n'], 'T:' + spec['tkind'])
     ctx.feature(kind='model', nlayers=spec['n'], pressure=spec['pkind'], T=spec['tkind'], planet=spec['planet'],
                 fills=spec['fills'], heavy=spec['heavy'], active=spec['active'], reverse=spec.get('reverse'))
@@ -409,6 +418,46 @@ def wl_model(ctx, rng):
                 'z_top_over_Rp': float(d['exposed:zb'][-1] / m.planet.fullRadius), 'H_minmax': [float(d['exposed:H'].min()),
                                                                                               float(d['exposed:H'].max())],
                 'mu_amu_minmax': [float(d['exposed:mu'].min() / AMU), float(d['exposed:mu'].max() / AMU)]})
+
+
+def wl_shared(ctx, rng):
+    """Several models of the same layer count share one Planet object (a script comparing atmospheres of one planet):
+    after each further model was built and run, every earlier model's exposed profiles are judged again against the
+    recursion for ITS OWN temperature, levels and molecular weight."""
+    spec, m = draw_bound_model(ctx, rng, pkinds=('simple',), nmin=2)
+    observe_spec(ctx, spec)
+    m.initialize_profiles()
+    models = [m]
+    judge = L._h['judge_model']
+    for k in range(int(rng.integers(1, 3))):
+        for _ in range(40):
+            s2 = gen_spec(rng, pkinds=('simple',), nmin=2)
+            s2['n'] = spec['n']
+            s2['planet'] = spec['planet']
+            if s2['tkind'] == 'layers':
+                s2['T'] = smooth_T(rng, spec['n'])
+            s2['heavy_x'] = (list(s2['heavy_x']) * spec['n'])[:spec['n']]
+            from taurex.exceptions import InvalidModelException
+            try:
+                m2 = build(ctx, s2, planet=m.planet)
+                m2.build()
+            except InvalidModelException:
+                continue
+            if is_bound(m2):
+                break
+        else:
+            ctx.event('domain-skip:no-second-bound-model')
+            return
+        before = ctx.monitors['contract:model.altitude']
+        m2.initialize_profiles()
+        if rng.random() < 0.5:
+            m2.model()
+        models.append(m2)
+        for j, mj in enumerate(models[:-1]):
+            judge(mj)
+            ctx.observe('shared-planet:earlier-model-rejudged')
+        ctx.check('contract-fired', ctx.monitors['contract:model.altitude'] > before + len(models) - 1)
+    ctx.sig('shared', spec['n'], len(models), round(spec['planet'][0], 6), round(spec['planet'][1], 6), spec['pmax'])
 
 
 def wl_align(ctx, rng):
@@ -474,7 +523,7 @@ def wl_align(ctx, rng):
     ctx.sig('align', what, j, n, spec['pkind'], round(spec['planet'][0], 6), spec['pmax'])
 
 
-WORKLOADS = {'grid': wl_grid, 'scale': wl_scale, 'model': wl_model, 'align': wl_align}
+WORKLOADS = {'grid': wl_grid, 'scale': wl_scale, 'model': wl_model, 'align': wl_align, 'shared': wl_shared}
 
 LEVEL_TEXT = ('Exploration by runtime monitoring: icontract postconditions attached from the harness to the pressure grids, to '
               'Planet.calculate_scale_properties, to SimpleForwardModel.initialize_profiles and to the profile dictionaries judge every '
